@@ -57,8 +57,9 @@ fn res_class(r: &RunRes) -> &'static str {
 /// All outputs agree except for f32 elements that differ at rounding level, *relative to the
 /// output*: every differing pair satisfies `|p − q| ≤ 2^-10 · max(|p|, |q|) + 2^-20 · M`, where `M`
 /// is the largest magnitude in that output tensor (the second term only covers elements that
-/// nearly cancel).  A different summation order, not a different element being read.
-fn rounding_only(a: &[Canon], b: &[Canon], _hint: f32) -> bool {
+/// nearly cancel) plus `2^-22 · hint` for results that cancel to almost zero in a small output tensor.
+/// A different summation order, not a different element being read.
+fn rounding_only(a: &[Canon], b: &[Canon], hint: f32) -> bool {
     if a.len() != b.len() {
         return false;
     }
@@ -79,7 +80,10 @@ fn rounding_only(a: &[Canon], b: &[Canon], _hint: f32) -> bool {
             if p.to_bits() == q.to_bits() {
                 continue;
             }
-            let tol = p.abs().max(q.abs()) / 1024.0 + m / 1_048_576.0;
+            // third term: elements that cancel to (almost) zero while the output tensor itself is small —
+            // the rounding error of a dot product scales with the INPUT magnitudes (hint = 8·Π max(1,|input|)),
+            // here at 2^-22 of it (16× tighter than the old absolute tolerance)
+            let tol = p.abs().max(q.abs()) / 1024.0 + m / 1_048_576.0 + hint / 4_194_304.0;
             if !(p.is_finite() && q.is_finite()) || (p - q).abs() > tol {
                 return false;
             }
